@@ -411,11 +411,17 @@ def run_map(case, p=None):  # noqa: C901, PLR0912
     s_objs = _s_objs(s_list)
     funcs, _, _ = reach(g, names, cx.given)
     front = frontier(g, names, cx.given)
-    ax = gen_map.output_axes(spec)
     env = calls = None
     if cx.cls != "reject":
-        sub = {"roots": {n: list(ax[n]) for n in given}, "sizes": spec["sizes"], "funcs": [spec["funcs"][i] for i in sorted(funcs)]}
-        env, calls = gen_map.ref_map(sub, vals)
+        # the denotation of the selected functions, one at a time, never overwriting a provided name (a provided member of a tuple output
+        # stays substituted while its sibling is computed)
+        env, calls = dict(vals), {}
+        for i in sorted(funcs):
+            e1, c1 = gen_map.ref_map({"roots": {}, "sizes": spec["sizes"], "funcs": [spec["funcs"][i]]}, env)
+            for o in spec["funcs"][i]["outs"]:
+                if o not in cx.given:
+                    env[o] = e1[o]
+            calls.update(c1)
     ish = gen_map.internal_shapes_arg(spec) or {}
     ish = {o: v for o, v in ish.items() if prod[o] in funcs} or None
     want_calls = [(n, a) for n, args in (calls or {}).items() for a in args]
